@@ -8,8 +8,10 @@ TRUSTED = [
     "Coq 8.16.1 kernel (coqc); no native_compute",
     "extraction: ExtrOcamlBasic only, no Extract Constant; OCaml 4.13.1; ocaml/arrays_drv.ml + zio (zarith for decimal I/O)",
     "correspondence: gen/arrays.py (array histories; cell-algebra unit stream), harness/arrays.cpp "
-    "(public API of array_smashing<interval_domain>; offset_map_t / cell_t / array_state / covers_all_offsets of "
-    "array_adaptive_domain reached with #define private public), line diff",
+    "(public API of array_smashing<interval_domain> and of array_adaptive_domain<interval_domain>; offset_map_t / "
+    "cell_t / array_state / covers_all_offsets / m_array_map / m_cell_ghost_man of array_adaptive_domain reached "
+    "with #define private public: the shape of every array (cells with their removed flag and whether they have a "
+    "ghost variable, or the element size of a smashed array) is printed after every step), line diff",
     "the interval-domain layer of the model is the one of C03 (Dom/ItvDomain.v), its environment layer the total-map "
     "abstraction that C19 proves for separate_domain",
     "concrete semantics (Dom/ArraySmashSound.v cstep; gen/arrays.py oracle): scalars = mathematical integers, an array = "
@@ -28,8 +30,24 @@ ASSUME = [
     "theorem on array_smashing<interval_domain>: histories without meet / narrowing (mirrored and corresponded, not proved: "
     "the property lists joins and widenings only); rename of one variable at a time and expand on arrays within their "
     "documented use (the new name is fresh); integer arrays only (bool / real arrays are not modelled)",
-    "array_adaptive_domain: only the cell algebra and the store/load decision table are modelled and proved; its transfer "
-    "functions and lattice operations (ghost variables, renaming) are covered by the oracle search only",
+    "array_adaptive_domain<interval_domain>: mirror model Dom/ArrayAdapt.v (array states, ghost map, all transfer "
+    "functions and lattice operations, the 4 parameters), tied to the code by the streams adapt-histories-* (state and "
+    "array shapes after every step, 16 parameter settings); mirrored sub-language: histories without meet / narrowing "
+    "(a cell can then keep its ghost variable without being in the offset map: the code hands out a new variable where "
+    "the model has one fixed name per cell) and without cells at negative offsets (offset_t wraps): those are left to "
+    "the oracle search.  The variable factory's fresh ghost names are modelled by one fixed name per (array, offset, size)",
+    "theorems on the adaptive model (Dom/ArrayAdaptSound.v) are PARTIAL: side conditions hop_okA (word-level assumption "
+    "checked on the abstract state: element size = the one of the array, aligned constant indexes, array_init with "
+    "constant bounds, ranges that fit into max_array_size; no meet / narrowing / project / array rename / array expand), "
+    "the hypothesis that every defined cell is tracked wherever an array is smashed (it cannot be dropped: "
+    "C14_adaptive_smash_untracked_refuted, known finding), and for joins the well-formedness checks join_ok on the "
+    "operands (executable; their preservation by the other operations is not proved).  For is_smashable = false no "
+    "hypothesis on the executions is left (C14_adaptive_history_sound_nonsmashable_partial).  For is_smashable = true the "
+    "invariant `every defined cell of an array that is not smashed is tracked` is carried through init / load / store / "
+    "range store / numerical operations and through joins / widenings of values that track the same cells "
+    "(C14_adaptive_history_sound_tracked_partial); where it is lost (top, forget / copy of arrays, joins of values that "
+    "track different cells, a symbolic store that can only kill cells) the oracle search remains and reports the known "
+    "finding",
     "which removed-flag survives when a cell is removed on one side only of an offset-map join/meet depends on the sharing "
     "optimisation of patricia merge: not modelled, not generated in the unit stream",
     "bases other than intervals (zones) and all parameter settings of the adaptive domain: oracle search only",
@@ -199,7 +217,7 @@ def adapt_histories(rep, tier, seed):
         return
     outd = os.path.join(vlib.VERIF, "out", "C14")
     os.makedirs(outd, exist_ok=True)
-    nstd, nmix = (220, 80) if quick else (2500, 1000)
+    nstd, nmix = (600, 200) if quick else (2500, 1000)
     skipped = 0
     for pi, p in enumerate(PARAMS_MIRROR):
         name = "adapt-histories-" + p.replace(":", "_")
@@ -213,7 +231,7 @@ def adapt_histories(rep, tier, seed):
             rc, out = vlib.sh([drv, "--mode=adapt-itv:" + p, cf], timeout=900)
             neg = set()
             for l in out.split("\n"):
-                if l.startswith("R ") and NEG_CELL.search(l):
+                if l.startswith("R ") and (NEG_CELL.search(l) or " NEGATIVE-OFFSET " in l[:40]):
                     neg.add(int(l.split(" ", 2)[1]))
             skipped += len(neg)
             lines = [l for i, l in enumerate(lines) if i not in neg]
